@@ -5,6 +5,22 @@ NOTES = ("All checks are contract-based deductive verification with pyvc (DESIGN
          "contract, failed validation of an assumed external contract). Known findings: /verif/known_findings.json.")
 
 CLAIMS = {
+    "C06": {
+        "text": ("Proof over a symbolic history of any length (strictly decreasing list of dated entries with opaque, possibly "
+                 "null values): Parameter._get_at_instant returns the value of the most recent entry on or before the date "
+                 "(loop invariant), Parameter.update (three loops, invariants definitional on the list under construction) keeps "
+                 "the history strictly decreasing, yields the new value on every date of the range and the previous value on "
+                 "every other date, for ranges given as period / start+stop / open-ended start, and refuses the two argument "
+                 "errors; get_at_instant / __call__ forward the ISO text of the instant; a group at a date exposes exactly the "
+                 "members defined at that date."),
+        "note": ("Bounded, not unbounded: ParameterNodeAtInstant.__init__ for a group of three members and Parameter.__init__ "
+                 "for a five-entry document (loops over concrete dicts are unrolled). ISO date texts are compared through their "
+                 "integer order embedding (validated exhaustively per run for 4-digit years). period.stop and Instant.offset enter "
+                 "through their C04 contracts. ParameterScale at an instant is covered with the tax scales (C08), YAML loading is "
+                 "outside. One false alarm of an earlier version of the postcondition is recorded in DESIGN.md section 9."),
+        "technique": "contract-based deductive verification (loop invariants over closure lists + SMT)",
+        "design_ref": "DESIGN.md section 4 C06, section 3.3",
+    },
     "C03": {
         "text": ("Proof of the accept/refuse matrix and of the ADD / DIVIDE value equations on the real Simulation.calculate_add, "
                  "calculate_divide, _check_period_consistency and CorePopulation.__call__: for every definition period x request "
